@@ -213,8 +213,9 @@ prop(
 prop(
     "C13",
     ["LolHtml.Thm.C13_Encoding", "LolHtml.Thm.C13_Tables", "LolHtml.Thm.C13_Whatwg"],
-    [{"lane": "enc", "n_quick": 3000, "n_thorough": 21000}],
-    "lane enc: decoder feeds with arbitrary splits — all 36 encodings on BOTH sides (UTF-8, x-user-defined and the 28 single-byte encodings from tables regenerated out of the pinned encoding_rs source; the 6 legacy multi-byte encodings as WHATWG state machines over index facts carried by the case, obtained from the real encoding_rs through harness sub-lane decq), text > 1 KiB, malformed bytes, encoder, UTF-8 resync, meta charset positions (labels resolved through the generated label table), non-ASCII-compatible refusal",
+    [{"lane": "enc", "n_quick": 3000, "n_thorough": 21000},
+     {"lane": "pass", "n_quick": 3000, "n_thorough": 40000, "impl_only": True}],
+    "lane pass (implementation only, shared with C01/C02): public HtmlRewriter in all 36 encodings, documents with text the encoding round-trips (U+FEFF inside text where encodable), tag names with non-ASCII characters whose trail bytes fall into A-Z / a-z in the legacy multi-byte encodings; oracle here: tag_name() / EndTag::name() equal the ASCII-lower-cased decoded preserve-case names; lane enc: decoder feeds with arbitrary splits — all 36 encodings on BOTH sides (UTF-8, x-user-defined and the 28 single-byte encodings from tables regenerated out of the pinned encoding_rs source; the 6 legacy multi-byte encodings as WHATWG state machines over index facts carried by the case, obtained from the real encoding_rs through harness sub-lane decq), text > 1 KiB, malformed bytes, encoder, UTF-8 resync, meta charset positions (labels resolved through the generated label table), non-ASCII-compatible refusal",
     ["single-byte / x-user-defined / UTF-8: the codec laws are theorems about the pinned crate's own tables (C13_Tables); assumed: encoding_rs' coder is that table lookup (lane-checked chunk by chunk)",
      "legacy multi-byte: the streaming laws are theorems for every index (C13_Whatwg); assumed: encoding_rs implements the WHATWG machine over the WHATWG index data (machines lane-checked against it with its own index facts; index data and multi-byte encoders only oracle-checked)",
      "known finding F16 (encoding_rs drops a pending lead byte on an empty feed; reachable through the hook only) shows as a model/implementation disagreement of exactly that shape, excluded from the diff by gen/enc.py project and tagged by the oracle",
